@@ -1,8 +1,93 @@
 (* C12 — Client-visible behaviour does not depend on the storage engine.
-   Property theorems only: each is closed by `exact <lemma>` and followed by Print Assumptions. *)
-From KB Require Import Model.BackendSeq Model.C12Cases Proofs.C12Wrapper.
+   Property theorems only: each is closed by `exact <lemma>` and followed by Print Assumptions.
 
+   `run_history A prefix init qs` (Model/BackendSeq.v) is what the backend's sequential request programs answer over
+   adapter model A: the raw engine contents at the end, the responses (success flags, error classes, values,
+   revisions, range results incl. more, header revisions) and the watch events.  `sim A m` (Proofs/Adapters.v) is
+   "A refines the engine contract" — the statement C11 proves for memkv, Badger, TiKV and the wrapper. *)
+From KB Require Import Base.Cases Model.Store Model.Adapters Model.C11Cases Model.Coder Model.BackendSeq Model.C12Cases
+  Proofs.Adapters Proofs.C11Cases Proofs.C12Wrapper Proofs.C12Indep Proofs.C12Cases.
+Local Open Scope N_scope.
+
+(* the full statement: every sequential history, any two adapters that refine the contract *)
+Definition C12_full_statement : Prop :=
+  forall A mA (SA : sim A mA) B mB (SB : sim B mB) prefix init qs,
+    run_history A prefix init qs = run_history B prefix init qs.
+
+(* Proved part: histories of Create / Update / Delete / Get / List requests (correct, stale, zero and future expected
+   revisions; existing, missing, deleted keys; limits; explicit read revisions) that write no empty value.
+   `plain_ok S`: the batches the programs issue (put-if-absent / compare-and-swap / put / delete, non-empty values) lie
+   outside the C11 deviations of S — shown below for all adapters.  Missing: Compact requests (see props/C12.json). *)
+Theorem C12_engine_independent_partial :
+  forall A mA (SA : sim A mA) B mB (SB : sim B mB) prefix init qs,
+    plain_ok SA -> plain_ok SB -> Forall point_ok qs ->
+    run_history A prefix init qs = run_history B prefix init qs.
+Proof. exact engine_independent_points. Qed.
+Print Assumptions C12_engine_independent_partial.
+
+Theorem C12_plain_ok_all : forall e, plain_ok (sim_of e).
+Proof. exact plain_ok_of. Qed.
+Print Assumptions C12_plain_ok_all.
+
+(* every adapter answers as the contract itself would (the reference adapter is the contract on a plain map) *)
+Theorem C12_as_contract : forall A m (S : sim A m), plain_ok S -> forall prefix init qs, Forall point_ok qs ->
+  run_history A prefix init qs = run_history radapter prefix init qs.
+Proof. exact (fun A m S H prefix init qs => @rel_run_history A m S H prefix init qs). Qed.
+Print Assumptions C12_as_contract.
+
+(* the metrics wrapper is transparent for every history, compaction included *)
 Theorem C12_wrapper_transparent : forall A prefix init qs,
   run_history (wrapper A) prefix init qs = run_history A prefix init qs.
 Proof. exact wrapper_transparent. Qed.
 Print Assumptions C12_wrapper_transparent.
+
+(* the full statement is refuted by a write of an empty value (finding C12-F1): memkv returns the key with an empty
+   value, Badger returns no Kv, TiKV refuses the write *)
+Theorem C12_full_refuted_memkv_badger :
+  snd (fst (run_history memkv registry 1000 f1_history)) <> snd (fst (run_history badger registry 1000 f1_history)).
+Proof. exact empty_value_memkv_badger. Qed.
+Print Assumptions C12_full_refuted_memkv_badger.
+
+Theorem C12_full_refuted_memkv_tikv :
+  snd (fst (run_history memkv registry 1000 f1_history)) <> snd (fst (run_history tikv registry 1000 f1_history)).
+Proof. exact empty_value_memkv_tikv. Qed.
+Print Assumptions C12_full_refuted_memkv_tikv.
+
+(* the oracle evaluated on the implementation's transcripts accepts whatever the models produce *)
+Theorem C12_oracle_sound : forall c, c12_valid c -> c12_check c = true -> c12_oracle c = None.
+Proof. exact c12_oracle_sound. Qed.
+Print Assumptions C12_oracle_sound.
+
+(* ---- non-vacuity ---- *)
+Definition ex_key : bytes := registry ++ [47; 97].
+Definition ex_history : list req :=
+  [QUpdate ex_key [118; 49] 7;                     (* guarded update of a missing key: the da987ef witness *)
+   QCreate ex_key [118; 49]; QCreate ex_key [118; 50];
+   QUpdate ex_key [118; 51] 1002; QUpdate ex_key [118; 52] 1002;
+   QGet ex_key 0; QDelete ex_key 1002; QDelete ex_key 0; QCreate ex_key [118; 54];
+   QList (registry ++ [47]) (registry ++ [48]) 0 1; QGet ex_key 1004].
+
+Example C12_ex_valid : Forall point_ok ex_history.
+Proof. repeat constructor; discriminate. Qed.
+
+(* a history in which writes succeed, fail on a condition, a delete tombstones the key and a create revives it;
+   all five engines' models answer alike *)
+Example C12_ex_transcript :
+  snd (fst (run_history memkv registry 1000 ex_history)) =
+  [PUpdate false 1001 None; PCreate true 1002; PCreate false 1003;
+   PUpdate true 1004 None; PUpdate false 1005 (Some ([118; 51], 1004));
+   PGet 1005 (Some ([118; 51], 1004)); PDelete false 1006 (Some ([118; 51], 1004));
+   PDelete true 1007 (Some ([118; 51], 1004)); PCreate true 1008;
+   PList 1008 [(ex_key, [118; 54], 1008)] false; PGet 1008 (Some ([118; 51], 1004))].
+Proof. vm_compute. reflexivity. Qed.
+
+Example C12_ex_engines :
+  run_history memkv registry 1000 ex_history = run_history badger registry 1000 ex_history /\
+  run_history memkv registry 1000 ex_history = run_history tikv registry 1000 ex_history.
+Proof. split; vm_compute; reflexivity. Qed.
+
+(* the oracle is not vacuous: it rejects the transcript pair the TiKV defect fixed by da987ef produced *)
+Example C12_oracle_rejects :
+  c12_oracle (mk_c12 1000 [QUpdate ex_key [118; 49] 7]
+                [mk_run EMem [PUpdate false 1001 None] [] []; mk_run ETiKV [PErr] [] []]) = Some 0.
+Proof. vm_compute. reflexivity. Qed.
